@@ -33,7 +33,7 @@ ASSUMPTIONS = [
     "max_block_size is fixed per run (4096; frag_load additionally 1 MiB in the thorough tier): the code only compares sizes against it, but other block sizes are not separately run",
     "deduplicate_blocks with SQFS_BLOCK_WRITER_HASH_COMPARE_ONLY and chunk_info_equals without file/uncompressor/table deduplicate on (size, checksum) alone by design (library option). C08.init.* proves that the packers never configure this; the option itself is outside the property",
     "sparse fragments (set_block_size path of process_completed_fragment) and the inode bookkeeping of data blocks are C01/C03/C13 matters, excluded by requires in frag_pcf / frag_pcb",
-    "ht_search runs under --dfcc (for the urem contract): cbmc --cover cannot see cover points there; reachability is demonstrated by the self-test mutants. Hash table resize (rehash) is not exercised: insert is verified for tables with room",
+    "ht_search runs under --dfcc (for the urem contract; cover points are checked by the driver's separate cover build). Hash table resize (rehash) is not exercised: insert is verified for tables with room",
     "sqfs_writer_init: block size legal, num_jobs/max_backlog fit 32 bit (option parsers; narrowing is C03)",
     "VERIF_CUT in blk_dedup.c (assert, then assume the same fact) only feeds the SAT solver the induction steps of an addition chain about the harness's own well-formed history; every cut is an obligation first",
     "the uncompressor really inverts the compressor and xxh32 is a function of the bytes (neither is needed for soundness: equality is decided on bytes)",
@@ -123,7 +123,7 @@ HARNESSES = [
                      tier="quick")
                 for fb in (0, 1) for ino in (0, 1)]),
     dict(name="ht_search", file="ht_search.c", label="bounded(table size<=7)", timeout=600, object_bits=10,
-         mode="dfcc", replace=["util_fast_urem32"], cover=False,
+         mode="dfcc", replace=["util_fast_urem32"],
          must_have=["C08.ht.hit_needs_equal", "C08.ht.equal_is_returned"],
          fp={"key_equals_function": "stub_equals", "key_hash_function": "stub_hash",
              "delete_function": "stub_delete"},
